@@ -969,6 +969,11 @@ func (x *Exec) inScope(cl *Clause) bool {
 					found = true
 				}
 			}
+			for _, fv := range x.top.FreeVars {
+				if fv.Name() == n {
+					found = true
+				}
+			}
 		}
 		if !found {
 			return false
